@@ -24,9 +24,10 @@ func TestMain(m *testing.M) {
 	evid.Rule("(a) a reference database with 40–120 consecutive day directories (more than one 32-directory workload) and a generated query (generator of C08) is run in an executor child under every configuration of numProcessingUnits ∈ {1,2,3,4,8,16} (hook) × low-memory on/off × GOMAXPROCS ∈ {1,2,16} (quick: a drawn subset of 6 configurations, thorough: the full grid), " +
 		"rows/totals/hits must equal the reference aggregation in every configuration and the block/directory statistics must be identical across configurations with no corrupted blocks; " +
 		"(b) termination: databases with D ∈ {100, 2100 (quick), 4200 (thorough)} one-block day directories queried with 1 and 2 processing units: the child must answer; a child that does not answer is asked for a goroutine dump and only a structural deadlock witness (producer blocked in chan send inside CreateWorkerJobs, no worker goroutine) counts as a violation, anything else is inconclusive; " +
-		"non-trivial = ≥ 2 configurations compared on a database with > 32 day directories in range, or D > 64·32·units; distinct by (database, query, configuration set)")
+		"(c) owned schedules: the query runs in-process inside a synctest bubble on a database of 40–130 day directories with 2–4 workers; all its goroutines park at the step points compiled into goProbe's file operations and a cooperative scheduler releases one at a time following a rapid-drawn schedule (choice list plus run lengths: uniform interleaving, sticky runs, starvation); rows must equal the reference aggregation, statistics/hits/totals those of the single-worker run; every goroutine durably blocked with none at a step point after ten minutes of bubble time is a deadlock; " +
+		"non-trivial = ≥ 2 configurations compared on a database with > 32 day directories in range, or D > 64·32·units, or (schedules) ≥ 2 workers performed column reads with ≥ 2 switches between them; distinct by (database, query, configuration set / schedule)")
 	evid.Assume("liveness is judged only through a structural deadlock witness, never through a timeout alone",
-		"goroutine schedules are varied through GOMAXPROCS, worker count and repetition; they are not owned (see DESIGN §7)")
+		"in the configuration part goroutine schedules are varied through GOMAXPROCS, worker count and repetition and are not owned; in the schedule part they are owned at the granularity of goProbe's instrumented file operations")
 	evid.Main(m)
 }
 
